@@ -1348,11 +1348,19 @@ pub fn plain_dict(work: &Path) -> JapaneseDictionary {
 
 pub fn run(args: &Args) {
     let mut sink = Sink::new("C15", &args.out, &["Model.Numeric", "Model.NumericCanon"], args.seed, &args.tier);
-    sink.rule("(a) numeral parser via verif_parse_numeral vs Coq model: numerals generated FROM A VALUE (plain Arabic/kanji/mixed digits up to 150 digits, comma groups, fractions with trailing zeros, unit notation 十..兆 below 10^16 with optional/positional coefficients, fraction x unit, long digit string x large unit) with the expected rendering; near-miss malformed strings (bad comma groups, dangling/double points, swapped or repeated units) with the required error state; random strings over the numeral alphabet checked against an exact fixed-point reference ('never a wrong value'); (a') canonical writings of values 0 < n < 10^16 exactly as defined in Model/NumericCanon.v (per group kanji units with written / omitted 一 and kanji / Arabic coefficients, or Arabic digits + large unit): the Coq term rebuilds the string from the value; (a'') two non-zero groups with arbitrary large units (descending, repeated, increasing): accepted iff C15_unit_order_behaviour says so, value = sum; (b') sentences with several numerals: malformed groupings and stray separators before well-formed numerals, every well-formed numeral must be joined with the rendering of its value whatever preceded it; dictionary words that begin with a numeral character (四半期, 一人, 千葉, 万年筆 ...) directly after numerals; (b'') the numeral IS the whole text (paths of one node: single digits, kanji digits, 十 百 千; of a few nodes), bare and between blanks, modes A/B/C; sentence segments on their own; one-token texts that are not numerals and the empty text must be analysed as without the plugin; (b) the same numerals embedded in text and analysed with a dictionary tagging digits/units as numerals and JoinNumericPlugin: one token, normalised form = rendering; malformed: pieces only; (c) the pipeline cases repeated with a StatefulTokenizer restricted to 14 word-info field subsets (with / without NORMALIZED_FORM, POS_ID, SURFACE, ...) in modes A/B/C: same boundaries as with all fields, same normalised forms when requested, well-formed numeral = one token with the expected rendering.  non-trivial = more than one character (parser) / at least one merge (pipeline)");
+    sink.rule("(a) numeral parser via verif_parse_numeral vs Coq model: numerals generated FROM A VALUE (plain Arabic/kanji/mixed digits up to 150 digits, comma groups, fractions with trailing zeros, unit notation 十..兆 below 10^16 with optional/positional coefficients, fraction x unit, long digit string x large unit) with the expected rendering; near-miss malformed strings (bad comma groups, dangling/double points, swapped or repeated units) with the required error state; random strings over the numeral alphabet checked against an exact fixed-point reference ('never a wrong value'); (a') canonical writings of values 0 < n < 10^16 exactly as defined in Model/NumericCanon.v (per group kanji units with written / omitted 一 and kanji / Arabic coefficients, or Arabic digits + large unit): the Coq term rebuilds the string from the value; (a'') two non-zero groups with arbitrary large units (descending, repeated, increasing): accepted iff C15_unit_order_behaviour says so, value = sum; (b') sentences with several numerals: malformed groupings and stray separators before well-formed numerals, every well-formed numeral must be joined with the rendering of its value whatever preceded it; dictionary words that begin with a numeral character (四半期, 一人, 千葉, 万年筆 ...) directly after numerals; (b'') the numeral IS the whole text (paths of one node: single digits, kanji digits, 十 百 千; of a few nodes), bare and between blanks, modes A/B/C; sentence segments on their own; one-token texts that are not numerals and the empty text must be analysed as without the plugin; (b) the same numerals embedded in text and analysed with a dictionary tagging digits/units as numerals and JoinNumericPlugin: one token, normalised form = rendering; malformed: pieces only; (c) the pipeline cases repeated with a StatefulTokenizer restricted to 14 word-info field subsets (with / without NORMALIZED_FORM, POS_ID, SURFACE, ...) in modes A/B/C: same boundaries as with all fields, same normalised forms when requested, well-formed numeral = one token with the expected rendering.  (d) the `sudachi` command-line tool in its default mode (every line through the sentence splitter, then the tokenizer) and with -a: numerals generated from values with ASCII / full-width / mixed-width digits, full-width separators and points, alone on a line and inside sentences, directed ones first (３．１４, １，２３４．５０, ...): ONE token, normalised-form column = rendering of the value.  non-trivial = more than one character (parser) / at least one merge (pipeline)");
     if let Some(p) = &args.replay {
         let v: Value = serde_json::from_str(&std::fs::read_to_string(p).unwrap()).unwrap();
         let c = &v["case"];
         let want = c["want_err"].as_u64().map(|x| x as u8);
+        if c["kind"] == "cli" {
+            let line = CliLine { pre: c["pre"].as_str().unwrap().into(), num: c["num"].as_str().unwrap().into(), post: c["post"].as_str().unwrap().into(),
+                                 expected: c["expected"].as_str().unwrap().into(), tag: "replay" };
+            let flags: Vec<String> = c["flags"].as_array().map(|a| a.iter().map(|x| x.as_str().unwrap().to_string()).collect()).unwrap_or_default();
+            cli_run(&mut sink, args, &[line], &flags, true);
+            sink.finish();
+            return;
+        }
         if c["kind"] == "unchanged" {
             let dict = numeric_dict(&args.work);
             let plain = plain_dict(&args.work);
@@ -1525,5 +1533,168 @@ pub fn run(args: &Args) {
         let mode = *rng.pick(&[Mode::A, Mode::B, Mode::C][..]);
         subset_case(&mut sink, &dict, pre, &m.text, post, None, sub, mode, m.tag, false);
     }
+    cli_section(&mut sink, &mut rng, args);
     sink.finish();
+}
+
+// ------------------------------------------------------------------------------------------------ the command-line tool
+// The `sudachi` tool in its default mode is a public route to the same analysis: every input line first goes through the
+// sentence splitter, then every sentence through the tokenizer with the configured plugins.  A well-formed numeral must
+// come out as ONE token whose normalised-form column is the decimal rendering of its value on this route too -- with ASCII
+// or full-width digits, separators and points, alone on a line and inside a sentence.
+
+struct CliLine {
+    pre: String,
+    num: String,
+    post: String,
+    expected: String,
+    tag: &'static str,
+}
+
+/// ASCII digits (and, when `seps`, the separators) of a numeral in their full-width forms
+fn fullwidth_all(s: &str, seps: bool) -> String {
+    s.chars()
+        .map(|c| match c {
+            '0'..='9' => FULLWIDTH_DIGITS[c.to_digit(10).unwrap() as usize],
+            '.' if seps => '．',
+            ',' if seps => '，',
+            _ => c,
+        })
+        .collect()
+}
+
+const CLI_DIRECTED: [(&str, &str, &str, &str); 22] = [
+    ("", "3.14", "", "3.14"), ("", "３．１４", "", "3.14"), ("", "３.１４", "", "3.14"), ("", "3．１４", "", "3.14"), ("", "３．14", "", "3.14"),
+    ("", "１，２３４．５０", "", "1234.5"), ("", "1,234.50", "", "1234.5"), ("", "０．０５", "", "0.05"), ("", "１２３", "", "123"), ("", "１，０００", "", "1000"),
+    ("京都に", "３．１４", "円", "3.14"), ("京都に", "１，２３４．５０", "円と", "1234.5"), ("", "３．１４", "円に京都", "3.14"), ("東京都に", "２万５，０００．５", "円", "25000.5"),
+    ("", "三.五〇", "", "3.5"), ("", "三．五〇", "円", "3.5"), ("京都", "１．５千", "円", "1500"), ("", "９９９．９９９", "", "999.999"), ("に", "０．５", "と", "0.5"),
+    ("", "2,000,000", "円", "2000000"), ("", "２，０００，０００", "円", "2000000"), ("京都に", "1.5", "", "1.5"),
+];
+
+fn cli_setup(args: &Args) -> Result<(String, PathBuf, PathBuf), String> {
+    let cli = std::env::var("VERIF_CLI_BIN").unwrap_or_default();
+    if cli.is_empty() || !Path::new(&cli).exists() {
+        return Err("the command-line tool is not available (pre_build step py_cli did not run; VERIF_CLI_BIN)".into());
+    }
+    let dir = args.work.join("c15cli");
+    std::fs::create_dir_all(&dir).map_err(|e| e.to_string())?;
+    let res = resource_dir(&args.work, "res_c15", "resources/char.def");
+    std::fs::write(dir.join("system.dic"), compile_system(EXTRA_ROWS)).map_err(|e| e.to_string())?;
+    let cfg = json!({
+        "systemDict": dir.join("system.dic").to_string_lossy(),
+        "characterDefinitionFile": "char.def",
+        "inputTextPlugin": [{"class": "com.worksap.nlp.sudachi.DefaultInputTextPlugin"}],
+        "oovProviderPlugin": [{"class": "com.worksap.nlp.sudachi.SimpleOovPlugin",
+                               "oovPOS": ["名詞", "普通名詞", "一般", "*", "*", "*"], "leftId": 8, "rightId": 8, "cost": 6000}],
+        "pathRewritePlugin": [{"class": "com.worksap.nlp.sudachi.JoinNumericPlugin", "enableNormalize": true}],
+    });
+    let cfgp = dir.join("sudachi.json");
+    std::fs::write(&cfgp, serde_json::to_string_pretty(&cfg).unwrap()).map_err(|e| e.to_string())?;
+    Ok((cli, cfgp, res))
+}
+
+/// one run of the tool over a file with one case per line
+fn cli_run(sink: &mut Sink, args: &Args, lines: &[CliLine], flags: &[String], verbose: bool) {
+    let desc = |l: &CliLine| json!({"kind": "cli", "pre": l.pre, "num": l.num, "post": l.post, "expected": l.expected, "flags": flags, "tag": l.tag});
+    let (cli, cfgp, res) = match cli_setup(args) {
+        Ok(x) => x,
+        Err(e) => {
+            let id = sink.case_rust_only(json!({"kind": "cli", "pre": "", "num": "", "post": "", "expected": "", "flags": flags}), false);
+            sink.fail(id, &e, "");
+            return;
+        }
+    };
+    let file = args.work.join("c15cli").join(format!("input-{}.txt", std::process::id()));
+    let mut content = String::new();
+    for l in lines {
+        content.push_str(&format!("{}{}{}\n", l.pre, l.num, l.post));
+    }
+    std::fs::write(&file, content).unwrap();
+    let out = std::process::Command::new(&cli).arg("-r").arg(&cfgp).arg("-p").arg(&res).args(flags).arg(&file).output();
+    let _ = std::fs::remove_file(&file);
+    let stdout = match out {
+        Ok(o) if o.status.success() => String::from_utf8_lossy(&o.stdout).to_string(),
+        Ok(o) => {
+            let id = sink.case_rust_only(desc(&lines[0]), true);
+            sink.fail(id, &format!("the tool exited with {:?}: {}", o.status.code(), String::from_utf8_lossy(&o.stderr).chars().take(300).collect::<String>()), "");
+            return;
+        }
+        Err(e) => {
+            let id = sink.case_rust_only(desc(&lines[0]), true);
+            sink.fail(id, &format!("cannot run {}: {}", cli, e), "");
+            return;
+        }
+    };
+    if verbose {
+        println!("tool output:\n{}", stdout);
+    }
+    // (surface, part of speech, normalised form) of every printed morpheme, EOS lines dropped
+    let mut toks: std::collections::VecDeque<(String, String, String)> = std::collections::VecDeque::new();
+    for l in stdout.split_terminator('\n') {
+        if l == "EOS" {
+            continue;
+        }
+        let cols: Vec<&str> = l.split('\t').collect();
+        if cols.len() >= 3 {
+            toks.push_back((cols[0].to_string(), cols[1].to_string(), cols[2].to_string()));
+        }
+    }
+    for l in lines {
+        let text = format!("{}{}{}", l.pre, l.num, l.post);
+        let id = sink.case_rust_only(desc(l), l.num.chars().count() > 1);
+        sink.tag(&format!("cli:{}", l.tag));
+        // the morphemes of this line: consume until their surfaces spell the line
+        let mut mine: Vec<(usize, String, String, String)> = vec![];
+        let mut at = 0usize;
+        while at < text.len() {
+            match toks.pop_front() {
+                Some((sf, pos, norm)) if text[at..].starts_with(&sf) && !sf.is_empty() => {
+                    mine.push((at, sf.clone(), pos, norm));
+                    at += sf.len();
+                }
+                other => {
+                    sink.fail(id, &format!("{:?}: the tool's output does not spell the line (next morpheme {:?} at byte {})", text, other, at), "");
+                    return;
+                }
+            }
+        }
+        let (b, e) = (l.pre.len(), l.pre.len() + l.num.len());
+        let inside: Vec<&(usize, String, String, String)> = mine.iter().filter(|t| t.0 >= b && t.0 + t.1.len() <= e).collect();
+        if inside.len() != 1 || inside[0].0 != b || inside[0].1.len() != l.num.len() {
+            sink.fail(
+                id,
+                &format!("command-line tool {:?}, line {:?}: well-formed numeral {:?} (value {}) is not ONE token: {:?}", flags, text, l.num, l.expected, mine.iter().map(|t| (t.1.clone(), t.3.clone())).collect::<Vec<_>>()),
+                "",
+            );
+        } else if inside[0].3 != l.expected {
+            sink.fail(id, &format!("command-line tool {:?}, line {:?}: numeral {:?} has normalised form {:?}, the decimal rendering of its value is {:?}", flags, text, l.num, inside[0].3, l.expected), "");
+        } else if !inside[0].2.contains("数詞") {
+            sink.fail(id, &format!("command-line tool, line {:?}: joined numeral has part of speech {:?}", text, inside[0].2), "");
+        }
+    }
+}
+
+fn cli_section(sink: &mut Sink, rng: &mut Rng, args: &Args) {
+    let mut lines: Vec<CliLine> = CLI_DIRECTED.iter().map(|(a, b, c, d)| CliLine { pre: a.to_string(), num: b.to_string(), post: c.to_string(), expected: d.to_string(), tag: "directed" }).collect();
+    let pres = ["", "京都", "に", "東京都に", "コーヒー"];
+    let posts = ["", "に", "円", "京都", "円と", "カップ"];
+    for k in 0..args.n(240, 4000) {
+        let n = gen_wellformed(rng);
+        if n.text.contains("六三四") || n.text.chars().count() > 60 {
+            continue;
+        }
+        // numerals generated from a value, written with ASCII digits, with full-width digits, with full-width separators too
+        let (num, tag) = match k % 4 {
+            0 => (n.text.clone(), "as_generated"),
+            1 => (fullwidth_all(&n.text, false), "fullwidth_digits"),
+            2 => (fullwidth_all(&n.text, true), "fullwidth_digits_and_separators"),
+            _ => (fullwidth_some(&n.text, rng), "mixed_width_digits"),
+        };
+        let (pre, post) = if k % 3 == 0 { ("", "") } else { (*rng.pick(&pres), *rng.pick(&posts)) };
+        lines.push(CliLine { pre: pre.into(), num, post: post.into(), expected: n.expected.clone(), tag });
+    }
+    // default mode (sentence splitting on), three columns; and -a
+    cli_run(sink, args, &lines, &[], false);
+    let some: Vec<CliLine> = lines.into_iter().step_by(3).collect();
+    cli_run(sink, args, &some, &["-a".to_string()], false);
 }
